@@ -135,3 +135,13 @@ from pyvc.registry import bounded
 bounded(['C09', 'C05'], 'bounded/regex_contracts.py',
         'assumed semantic contracts of io.line_pattern, datareader.fullline_pattern and eod_pattern compared with the '
         'real compiled patterns (all strings <= 6 over {. CR LF a SP})')
+
+
+# C09 twin of recv_piece: when the reader gives up on an over-long message the stream must have been consumed up to
+# the end-of-data line -- otherwise the rest of the CONTENT is what the command parser reads next (open finding)
+contract('DataReader.recv_piece#eod', qual='DataReader.recv_piece', module=M, props=['C09'],
+         params={'self': 'DataReader'}, returns='Bool',
+         requires=['DR_ok(self)', 'in_timeout_scope()', 'self.size >= 0'],
+         raises={'ConnectionLost': [], 'Timeout': [], 'OSError': [],
+                 'MessageTooBig': ['eod_pattern.match(self.lines[cast(self.EOD, Int)]) is not None']},
+         modifies=['self.i', 'self.EOD', 'self.size', 'contents(self.lines)', 'fresh'])
